@@ -194,9 +194,17 @@ def c07_k(ctx: Ctx):
               key="C07.K::mips-delay-slot")
 
 
-@rule("C09.K", ["C09"], "the block-ordering cache agrees with the section layout for nested and patch-created blocks; cached CFI procedure extents stay current (known gaps)", 3)
+@rule("C09.K", ["C09"], "the block-ordering cache agrees with the section layout for nested and patch-created blocks; cached CFI procedure extents stay current; per-context counters do not collide (known gaps)", 4)
 def c09_k(ctx: Ctx):
     repo = ctx.repo
+    init = repo.func("rewriting.RewritingContext.__init__")
+    ip = repo.func("rewriting.RewritingContext._invoke_patch")
+    zero = any(isinstance(n, ast.Assign) and src(n.targets[0]) == "self._patch_id" and isinstance(n.value, ast.Constant) and n.value.value == 0 for n in ast.walk(init.node))
+    avoids = _any(ip, "symbols_named", "endswith", "while ")
+    ctx.check(not zero or avoids, ip, ip.node, "the temporary-label suffix of a patch is unique in the module, not only in the context",
+              "`_patch_id` starts at 0 in every RewritingContext and is used as the label suffix without looking at the module: the documented `.Lmy_label` patch applied at two blocks gets "
+              "_1 and _2 in one apply(), but applied in two consecutive contexts the second one raises MultipleDefinitionsError for `.Lmy_label_1` - batch and one-at-a-time differ",
+              key="C09.K::patch-id-restarts-per-context")
     _stale_tracker(ctx, "C09.K::stale-procedure-tracker")
     sp = repo.func("_modify.split.split_block")
     ins = [c for c in calls_in(sp.node) if isinstance(c.func, ast.Attribute) and c.func.attr == "insert_blocks_after"]
@@ -353,3 +361,158 @@ def c20_k(ctx: Ctx):
               "the no-op test is `not any(block.references) and block not in self._references`, but get_referent()/set_referent() empty a tree without dropping the (start, end) pair: "
               "s->A; retarget(A,B); set_referent(s, None); retarget(B, None) hits `assert to_block` although B has no reference at all (a fresh cache treats the same call as a no-op)",
               key="C20.K::empty-trees-count-as-references")
+
+
+# ----------------------------------------------------------------------------- second hunt round
+
+
+def _layout_call(ctx: Ctx, key: str, why: str):
+    pr = ctx.repo.func("prepare.prepare_for_rewriting")
+    lay = [c for c in calls_in(pr.node) if src(c.func) == "layout_module"]
+    if not lay:
+        raise AnalysisError("prepare_for_rewriting: layout_module call not found")
+    ctx.check(False, pr, lay[-1], "the re-layout after a rewrite keeps what the IR already fixed (interval order, addresses of untouched nodes, integral symbols)", why, key=key)
+
+
+@rule("C01.K2", ["C01"], "edits at the very end of a section and patches without text bytes are applied (or refused before anything changes); re-layout keeps surviving bytes in order (known gaps)", 3)
+def c01_k2(ctx: Ctx):
+    repo = ctx.repo
+    cl = repo.func("_modify.edit._cleanup_modified_blocks")
+    a = [n for n in walk_no_nested(cl.node) if isinstance(n, ast.Assert) and "all((b.size for b in blocks))" in src(n.test).replace("all(b.size", "all((b.size").replace("blocks)", "blocks))").replace(")))", "))")]
+    a = [n for n in walk_no_nested(cl.node) if isinstance(n, ast.Assert) and "b.size for b in blocks" in src(n.test) and src(n.test).startswith("all(")]
+    ctx.check(not a, cl, a[0] if a else cl.node, "an empty block that must stay (incoming branch, nothing behind it) is kept, as delete() keeps it",
+              "`assert all(b.size for b in blocks)`: a patch that ends in a jump-target label (`jne .Lskip; nop; .Lskip:`) inserted at the end of the last code block of a section leaves an empty block "
+              "that can be neither joined nor removed, and apply() dies on this bare assertion half-way",
+              key="C01.K::label-at-section-end")
+    ins = repo.func("_modify.edit.insert")
+    a2 = [n for n in walk_no_nested(ins.node) if isinstance(n, ast.Assert) and src(n.test) == "text_section.data"]
+    ctx.check(not a2, ins, a2[0] if a2 else ins.node, "a patch that assembles to no text bytes (only a label, only a CFI directive, only `.data` content, b'') is a no-op insert / a plain deletion",
+              "`assert text_section.data`: insert_at/replace_at with `here:`, `.cfi_undefined 0`, b'' or a patch that only adds a .data variable (documented use) dies with AssertionError/IndexError",
+              key="C01.K::empty-text-patch")
+    _layout_call(ctx, "C01.K::relayout-reorders-intervals",
+                 "when an edit makes two intervals overlap, gtirb_layout.layout_module (dependency, called here) re-addresses the whole module iterating `Section.byte_intervals`, a set: five adjacent "
+                 "one-block intervals in .data come back permuted after insert_at(first, 4, b'\\xaa') - surviving bytes are reordered")
+
+
+@rule("C02.K2", ["C02"], "a zero-sized block nested in another block is nobody's predecessor (known gap)", 1)
+def c02_k2(ctx: Ctx):
+    fi = ctx.repo.func("_modify.cache.ModifyCache.adjacent_blocks")
+    ctx.check(_any(fi, ".size", ".offset", ".address"), fi, fi.node, "adjacent_blocks skips blocks that are enclosed by another block",
+              "adjacency is the raw neighbour in an ordering by start address: a zero-sized block that sits *inside* block a (apply() creates one for an address-valued symbol a+1) is reported as the "
+              "predecessor of the next block b; delete_at(b, 0, 2) then 'cleans up' that block and its label jumps over untouched bytes (or b's labels land inside a)",
+              key="C02.K::nested-block-as-predecessor")
+
+
+@rule("C03.K2", ["C03"], "return edges follow calls that deletions move; a patch `ret` in a called function returns to its callers; padding code is in the CFG (known gaps)", 3)
+def c03_k2(ctx: Ctx):
+    repo = ctx.repo
+    ri = repo.func("_modify.remove._retarget_incoming_edges")
+    ctx.check(_any(ri, "return_edges", "_is_call_edge", "Return"), ri, ri.node, "moving an incoming Call edge to another function's block also moves the callee's return edges",
+              "_retarget_incoming_edges re-points every incoming edge the same way: after delete_at(callee_block, 0, 1) the call (and the label) lead to the next function's block, whose `ret` "
+              "keeps Return->proxy instead of returning to the call's return site",
+              key="C03.K::call-moved-by-deletion")
+    up = repo.func("_modify.edit._update_patch_return_edges_to_match")
+    ctx.check(_any(up, "_is_call_edge", "incoming_edges"), up, up.node, "a patch `ret` in a function without a return of its own gets its targets from the calls into the function",
+              "return targets are copied from the function's *existing* Return edges only; `worker: nop; jmp helper` (tail jump) plus insert_at(worker, 1, 'ret') leaves the new ret with Return->proxy "
+              "although main calls worker",
+              key="C03.K::ret-in-function-without-ret")
+    jb = repo.func("intervalutils.join_byte_intervals")
+    ctx.check(_any(jb, "cfg", "Edge("), jb, jb.node, "alignment padding that becomes a CodeBlock of nops is linked into the CFG",
+              "insert_padding creates a CodeBlock for nop padding and nothing touches the CFG: after insert_at(A, 0, 'nop') with 16-aligned A and B, A still has Fallthrough->B across a 15-nop block "
+              "that has no edges and is in no function",
+              key="C03.K::padding-block-outside-cfg")
+
+
+@rule("C05.K2", ["C05"], "integral symbols survive a re-layout where they were; a deleted self-loop leaves nothing behind (known gaps)", 2)
+def c05_k2(ctx: Ctx):
+    _layout_call(ctx, "C05.K::integral-symbol-after-relayout",
+                 "the re-layout after the rewrite runs gtirb_layout's assign_integral_symbols against stale addresses: an address-valued symbol pointing into the gap between .text and .data "
+                 "(0x1004) is attached to a new zero-sized CodeBlock in the middle of the 9 nops that were inserted into .text")
+    cr = ctx.repo.func("_modify.remove._can_remove_block")
+    ctx.check(_any(cr, "edge.source is not block", "edge.source is block", "edge.source != block", "block != edge.source", "block is not edge.source"), cr, cr.node,
+              "the block's own outgoing jump to itself does not count as incoming control flow",
+              "`not all(_is_fallthrough_edge(edge) for edge in block.incoming_edges)` also sees the block's own `jmp spin`: deleting `spin: jmp spin` (or both blocks of a loop) in front of data leaves "
+              "a zero-sized CodeBlock with no incoming edge - none of the three cases of doc/Deletion.md",
+              key="C05.K::self-loop-kept")
+
+
+@rule("C12.K2", ["C12"], "GOT-relative operands and subsections (known gaps)", 2)
+def c12_k2(ctx: Ctx):
+    repo = ctx.repo
+    fx = repo.func("assembler.assembler._Streamer._fixup_to_symbolic_operand")
+    ctx.check(_any(fx, "global_offset_table", "GLOBAL_OFFSET_TABLE"), fx, fx.node, "LLVM's bias on `_GLOBAL_OFFSET_TABLE_` fixups is stripped like the PC-relative one",
+              "only fixups flagged pc-relative are unwrapped; x86 gives `_GLOBAL_OFFSET_TABLE_` operands the kinds reloc_global_offset_table[8] with a bias of +fixup.offset: "
+              "`leaq _GLOBAL_OFFSET_TABLE_(%rip), %r15` yields SymAddrConst(-4, ...), `movabsq $_GLOBAL_OFFSET_TABLE_, %r11` +2 - addends nobody wrote",
+              key="C12.K::got-fixup-bias")
+    cs = repo.func("assembler.assembler._Streamer.change_section")
+    uses = [n for n in ast.walk(cs.node) if isinstance(n, ast.Name) and n.id == "subsection" and isinstance(n.ctx, ast.Load)]
+    only_forwarded = all(any(n is a for c in calls_in(cs.node) if src(c.func).startswith("super()") for a in ast.walk(c)) for n in uses)
+    ctx.check(bool(uses) and not only_forwarded, cs, cs.node, "a non-zero subsection is honoured or refused",
+              "`subsection` is only passed on to the base class: `.text; nop; .text 1; L: .byte 1; .text; ret` yields 90 01 c3 with L at 1 (GNU as / llvm-mc: 90 c3 01, L at 2) without any diagnostic",
+              key="C12.K::subsection-ignored")
+
+
+@rule("C13.K2", ["C13"], "the label pre-pass sees the same conditionals as the real pass; an undefined temporary is never turned into an extern (known gaps)", 2)
+def c13_k2(ctx: Ctx):
+    repo = ctx.repo
+    ea = repo.func("assembler.assembler._SymbolCreator.emit_assignment")
+    ctx.check(_any(ea, "unhandled_event", "base_impl", "super()"), ea, ea.node, "assignments are forwarded to the MC layer in the pre-pass too",
+              "the pre-pass swallows `sym = value`, so `.if`/`.ifdef` on a symbol assigned in the same text take different branches in the two passes: `mode = 1; .if mode == 0; fallback:; .endif; "
+              "jmp fallback` binds to a phantom label in no section; a label defined once in each of .if/.else raises MultipleDefinitionsError",
+              key="C13.K::prepass-conditionals")
+    rs = repo.func("assembler.assembler._Streamer._resolve_symbol")
+    ctx.check(_any(rs, "is_temporary"), rs, rs.node, "an unresolved *temporary* name is an error whatever allow_undef_symbols says",
+              "with allow_undef_symbols any unknown name becomes a proxy-backed symbol, also LLVM-internal temporaries: AArch64 `ldr x0, =msg` produces an extern `.Ltmp0` and never references msg",
+              key="C13.K::temporary-becomes-extern")
+
+
+@rule("C15.K", ["C15", "C14"], "every DWARF operation the opcode table names can be decoded (known gap)", 1)
+def c15_k(ctx: Ctx):
+    repo = ctx.repo
+    enum = repo.classes.get("dwarf.dwarf2.ExpressionOperations")
+    if enum is None:
+        raise AnalysisError("dwarf2.ExpressionOperations not found")
+    names = {t.id for s in enum.node.body if isinstance(s, ast.Assign) for t in s.targets if isinstance(t, ast.Name)}
+    used = set()
+    for c in repo.classes.values():
+        if c.mod.name == "dwarf.expr":
+            for k, v in c.keywords().items():
+                if k == "opcode" and isinstance(v, ast.Attribute):
+                    used.add(v.attr)
+    import re as _re
+
+    def covered(n: str) -> bool:
+        m = _re.fullmatch(r"(lit|reg|breg)(\d+)", n)
+        return n in used or (m is not None and f"{m.group(1)}0" in used)  # lit0/reg0/breg0 classes embed the operand in the opcode
+
+    missing = sorted(n for n in names if not covered(n))
+    if len(names) < 60 or len(used) < 40:
+        raise AnalysisError(f"opcode enumeration / registered classes not recognised ({len(names)}, {len(used)})")
+    ctx.check(not missing, enum.mod, enum.node, "each named DW_OP has an Operation class",
+              f"{len(missing)} named operations have no class ({', '.join(missing[:8])}...): a well-formed escaped expression that uses one (`.cfi_escape 0x0f,0x03,0x77,0x08,0x96` = breg7+8; nop) "
+              "is reported as `invalid opcode byte` and yields no state",
+              key="C15.K::unregistered-operations")
+
+
+@rule("C16.K2", ["C16"], "leaf status is known for every function a patch can land in (known gap)", 1)
+def c16_k2(ctx: Ctx):
+    fi = ctx.repo.func("rewriting.RewritingContext._update_leaf_functions")
+    loops = [n for n in walk_no_nested(fi.node) if isinstance(n, ast.For)]
+    ctx.check(any("function_entries" in src(l.iter) or "function_blocks" in src(l.iter) or "build_functions" in src(l.iter) for l in loops), fi, fi.node,
+              "leaf status is sampled for every function of the module's function tables, not only those passed to the context",
+              "only `self._functions` is sampled before the first rewrite: RewritingContext(m, []) inserts a call into leaf function f, the next context computes f's status from the rewritten "
+              "CFG, stores leafFunctions[f] = 0 and omits the red-zone skip - its `push` overwrites f's live -8(%rsp) slot",
+              key="C16.K::leaf-status-of-unlisted-functions")
+
+
+@rule("C18.K2", ["C18"], "A's kind (internal/external) is the one it had when the retarget was requested (known gap)", 1)
+def c18_k2(ctx: Ctx):
+    repo = ctx.repo
+    fi = repo.func("_modify.retarget._retarget_sym_expr")
+    v = single_assign_value(fi.node, "old_defined")
+    rq = repo.func("rewriting.RewritingContext.retarget_symbol_uses")
+    recorded = _any(rq, "defined", "isinstance(old_symbol.referent")
+    ctx.check(v is None or "referent" not in src(v) or recorded, fi, v or fi.node, "definedness of A is recorded at request time",
+              f"`old_defined = {src(v)[:70] if v else '?'}` is evaluated after the block edits: when the same rewrite deletes A's block to a proxy (delete_function(f) + retarget_symbol_uses(f, ext)) A looks "
+              "external, no attribute rule matches the still-internal expressions, and `lea ext(%rip)` / `call ext` keep {} instead of {GOT,PCREL} / {PLT}",
+              key="C18.K::definedness-after-deletion")
